@@ -6,6 +6,7 @@ import (
 	"io"
 	"os"
 	"path"
+	"path/filepath"
 	"strings"
 
 	"github.com/go-errors/errors"
@@ -108,6 +109,9 @@ func outputTupleDir(v rel.Value, dir string, fs afero.Fs, dryRun bool) error {
 			return fmt.Errorf("dir output dict key must be a non-empty string")
 		}
 		subpath := path.Join(dir, name.String())
+		if r, err := filepath.Rel(dir, subpath); err != nil || r == "." || r == ".." || strings.HasPrefix(r, "../") {
+			return fmt.Errorf("dir output dict key %q is not below the output directory", name.String())
+		}
 		switch content := v.(type) {
 		case rel.Tuple:
 			if err := configureOutput(content, subpath, fs, dryRun); err != nil {
